@@ -163,6 +163,23 @@ Proof.
   - do 7 (destruct k as [|k]; [cbv in H; discriminate|]). destruct k; cbv in H; discriminate.
 Qed.
 
+(* why the machine assumes that no disable call runs concurrently with finalize: a worker disabled after the finalizer's test
+   of its flag is never re-enabled *)
+Lemma concurrent_disable_hangs_gen :
+  exists s1, run false (init_state 1 2 2 [] []) [AFin; AFin; AFin] = Some s1 /\
+             let s := set_worker_flag s1 0 false in
+             stuck_at_join s = Some (0, 1) /\ (forall a s', step false s a = Some s' -> s' = s).
+Proof.
+  eexists. split; [vm_compute; reflexivity|]. split; [reflexivity|].
+  intros a s' H. destruct a as [|k|k|k d|k vi m|k].
+  - cbv in H. discriminate.
+  - destruct k as [|k]; [cbv in H; first [discriminate | injection H as <-; reflexivity]|]. destruct k; cbv in H; discriminate.
+  - destruct k as [|k]; [cbv in H; discriminate|]. destruct k; cbv in H; discriminate.
+  - destruct k as [|k]; [cbv in H; discriminate|]. destruct k; cbv in H; discriminate.
+  - destruct k as [|k]; [cbv in H; discriminate|]. destruct k; cbv in H; discriminate.
+  - destruct k as [|k]; [cbv in H; discriminate|]. destruct k; cbv in H; discriminate.
+Qed.
+
 (* the same configuration with the code's test (the worker's own flag) is an admissible start: it terminates *)
 Example wit0_code_terminates : exists sched sf, run false wit0 sched = Some sf /\ fin sf = FDone /\ all_exited sf = true /\ length sched <= mu wit0.
 Proof. apply (never_doomed_gen wit0 wit0); [reflexivity|exists []; reflexivity]. Qed.
